@@ -127,6 +127,48 @@ def element_classes(cd: Codecs, u, attr):
     return out
 
 
+def eq_type_guard(prog, rep, rule="eq-type-guard"):
+    """isinstance(other, K) in C.__eq__ must name C itself: a proper ancestor makes objects of different kinds compare equal."""
+    n = 0
+    for m in prog.modules.values():
+        for c in m.classes.values():
+            f = c.get("__eq__")
+            if f is None or not f.params:
+                continue
+            o = f.params[0]
+            for call in walk_no_nested(f.node):
+                if isinstance(call, ast.Call) and norm(call.func) == "isinstance" and len(call.args) == 2 and norm(call.args[0]) == o and isinstance(call.args[1], ast.Name):
+                    n += 1
+                    k = prog.resolve_class(m, call.args[1].id)
+                    if k is not None and k is not c and any(b is k for b in prog.mro(c)):
+                        rep.fail(rule, m.path.name, f"{c.name}.__eq__", call, f"`{norm(call)}` accepts every {k.name}: objects of other classes (other block types) can compare equal to a {c.name}")
+                    else:
+                        rep.ok(rule, f"{c.name}.__eq__ tests isinstance(other, {call.args[1].id})")
+    rep.floor(rule, n, 12)
+
+
+def allclose_on_sequences(prog, cd, rep, rule="eq-length"):
+    """np.allclose / np.isclose broadcast instead of comparing shapes: on a variable-length value list they make a shorter
+    list equal to a longer one unless the lengths are compared too."""
+    from .. import facts
+    for u in cd.units.values():
+        f = u.cls.get("__eq__")
+        if f is None:
+            continue
+        info = EqInfo(prog, u.cls, f)
+        kinds = facts.attr_kinds(prog, u.cls)
+        for a, node, how in info.nan_unaware + [(x, n, "np.allclose") for x, n, h in []]:
+            pass
+        for cj in info.conj:
+            for c in ast.walk(cj):
+                if isinstance(c, ast.Call) and norm(c.func) in ("np.allclose", "numpy.allclose", "np.isclose"):
+                    for a in attrs_of(c, info.sn) & attrs_of(c, info.on):
+                        k = kinds.get(a, {}).get("kind")
+                        if k == "seq" and a not in info.len_checked:
+                            rep.fail(rule, u.cls.module.path.name, f"{u.cls.name}.__eq__", cj, f"variable-length `{a}` is compared with {norm(c.func)}, which broadcasts: value lists of different lengths (0 or 1 item vs. more) compare equal",
+                                     construct=f"{u.cls.name}.__eq__ :: allclose {a}")
+
+
 def cell_coverage(prog, cd, rep, rule="eq-cell-coverage"):
     """A cell-by-cell comparison `X[i, j] for i in range(A) for j in range(B)` must range over the full extents of the
     array in axis order: (A, B) are the attributes the decoder passes as (axis 0, axis 1) extents of the decoded array."""
@@ -240,6 +282,8 @@ def run(prog, rep):
                 if k.get("__eq__") is None and not any(x[0] == a for x in info.elementwise):
                     rep.fail("eq-defined", k.module.path.name, k.name, k.node, f"{k.name} (element of {u.cls.name}.{a}) defines no __eq__", construct=f"class {k.name} :: __eq__")
     rep.floor("eq methods", n_eq, 18)
+    rep.attempt(eq_type_guard, prog, rep)
+    rep.attempt(allclose_on_sequences, prog, cd, rep)
     cell_coverage(prog, cd, rep)
     # units without __eq__ that are elements of something compared are reported above; units with a writer and no __eq__ at all:
     for u in cd.units.values():
